@@ -523,7 +523,8 @@ Inductive aval :=
 | ABad (a : N)                    (* unreadable string pointer *)
 | ASym (nm : list N)              (* pointer to the start of this function *)
 | AFlt (bits : N)
-| AStruct.
+| AStruct
+| ATxt (cands : list (list N)).   (* end-to-end runs: the renderings of the C-level value, stated by the driver *)
 
 Definition trunc_str (s : list N) : list N :=
   if lenN s <=? ARG_STR_MAX then s else takeN (ARG_STR_MAX - 3) s ++ [46; 46; 46].
@@ -540,7 +541,6 @@ Definition accept (s : spec) (a : aval) : list (list N) :=
       | FStr | FStdStr | FFloat => []
       | f =>
           [sdec bits u; dec u; (if u =? 0 then [48] else hexp u); (if u =? 0 then [48] else 48 :: oct u)]
-          ++ (match f with FAuto => if u <? 2 ^ 32 then [sdec 32 u] else [] | _ => [] end)
       end
   | AStr str =>
       let t := trunc_str str in
@@ -551,6 +551,7 @@ Definition accept (s : spec) (a : aval) : list (list N) :=
   | ASym nm => [38 :: nm]
   | AFlt _ => []                  (* judged through `dump` (bits), not through the text *)
   | AStruct => [s_name s ++ [123; 46; 46; 46; 125]; s_name s ++ [123; 125]; [123; 46; 46; 46; 125]; [123; 125]]
+  | ATxt cands => cands
   end.
 
 (* bytes the value needs in the payload (independent restatement of the format) *)
